@@ -1,0 +1,73 @@
+//go:build verif
+
+// Contracts for the verifier in /verif (comment-only; compiled only with -tags verif).
+
+package paillier
+
+//@ global zero != nil && val(zero) == 0 && one != nil && val(one) == 1
+//@ global ErrMessageTooLong != nil && ErrMessageMalFormed != nil
+
+//@ define wfPK(pk) = pk != nil && pk.N != nil
+//@ define nsq(pk) = val(pk.N) * val(pk.N)
+//@ define wfSK(sk) = sk != nil && sk.PublicKey.N != nil && val(sk.PublicKey.N) > 1 && sk.LambdaN != nil && val(sk.LambdaN) >= 0
+
+//@ func (*PublicKey).NSquare
+//@   props C06 C14
+//@   requires wfPK(publicKey)
+//@   ensures result != nil && fresh(result) && val(result) == nsq(publicKey)
+
+//@ func (*PublicKey).Gamma
+//@   props C06 C14
+//@   requires wfPK(publicKey)
+//@   ensures result != nil && fresh(result) && val(result) == val(publicKey.N) + 1
+
+//@ func (*PublicKey).AsInts
+//@   props C06 C12
+//@   requires wfPK(publicKey)
+//@   ensures fresh(result) && len(result) == 2 && result[0] == publicKey.N && result[1] != nil && fresh(result[1]) && val(result[1]) == val(publicKey.N) + 1
+
+//@ func (*PublicKey).EncryptAndReturnRandomness
+//@   props C06 C14 C13
+//@   requires wfPK(publicKey) && m != nil && rand != nil
+//@   requires [modulus-size] bitlen(val(publicKey.N)) <= 5000
+//@   ensures [C14.domain] (err == nil) <==> (0 <= val(m) && val(m) < val(publicKey.N))
+//@   ensures err != nil ==> (c == nil && x == nil)
+//@   ensures [C14.fresh-unit] err == nil ==> (x != nil && fresh(x) && 1 <= val(x) && val(x) < val(publicKey.N) && gcd(val(x), val(publicKey.N)) == 1)
+//@   ensures [C14.formula] err == nil ==> (c != nil && fresh(c) && val(c) == (powmod(val(publicKey.N) + 1, val(m), nsq(publicKey)) * powmod(val(x), val(publicKey.N), nsq(publicKey))) % nsq(publicKey))
+//@   ensures err == nil ==> (0 <= val(c) && val(c) < nsq(publicKey))
+
+//@ func (*PublicKey).Encrypt
+//@   props C06 C14
+//@   requires wfPK(publicKey) && m != nil && rand != nil
+//@   requires [modulus-size] bitlen(val(publicKey.N)) <= 5000
+//@   ensures [C14.domain] (err == nil) <==> (0 <= val(m) && val(m) < val(publicKey.N))
+//@   ensures err == nil ==> (c != nil && fresh(c) && 0 <= val(c) && val(c) < nsq(publicKey))
+//@   ensures err != nil ==> c == nil
+
+//@ func (*PublicKey).HomoMult
+//@   props C06 C14 C13 C11
+//@   requires wfPK(publicKey) && m != nil && c1 != nil
+//@   ensures [C14.domain] (result1 == nil) <==> (0 <= val(m) && val(m) < val(publicKey.N) && 0 <= val(c1) && val(c1) < nsq(publicKey))
+//@   ensures [C14.formula] result1 == nil ==> (result0 != nil && fresh(result0) && val(result0) == powmod(val(c1), val(m), nsq(publicKey)))
+//@   ensures result1 != nil ==> result0 == nil
+
+//@ func (*PublicKey).HomoAdd
+//@   props C06 C14 C13 C11
+//@   requires wfPK(publicKey) && c1 != nil && c2 != nil
+//@   ensures [C14.domain] (result1 == nil) <==> (0 <= val(c1) && val(c1) < nsq(publicKey) && 0 <= val(c2) && val(c2) < nsq(publicKey))
+//@   ensures [C14.formula] result1 == nil ==> (result0 != nil && fresh(result0) && val(result0) == (val(c1) * val(c2)) % nsq(publicKey))
+//@   ensures result1 != nil ==> result0 == nil
+
+//@ func L
+//@   props C06 C14
+//@   requires u != nil && N != nil
+//@   requires [divisor-nonzero] val(N) != 0
+//@   ensures result != nil && fresh(result) && val(result) == (val(u) - 1) / val(N)
+
+//@ func (*PrivateKey).Decrypt
+//@   props C06 C14 C13 C11
+//@   requires wfSK(privateKey) && c != nil
+//@   requires [key-wellformed] gcd((powmod(val(privateKey.PublicKey.N) + 1, val(privateKey.LambdaN), nsq(privateKey.PublicKey)) - 1) / val(privateKey.PublicKey.N), val(privateKey.PublicKey.N)) == 1
+//@   ensures [C14.domain] (err == nil) <==> (0 <= val(c) && val(c) < nsq(privateKey.PublicKey) && gcd(val(c), nsq(privateKey.PublicKey)) <= 1)
+//@   ensures err != nil ==> m == nil
+//@   ensures [C14.formula] err == nil ==> (m != nil && fresh(m) && val(m) == (((powmod(val(c), val(privateKey.LambdaN), nsq(privateKey.PublicKey)) - 1) / val(privateKey.PublicKey.N)) * invmod((powmod(val(privateKey.PublicKey.N) + 1, val(privateKey.LambdaN), nsq(privateKey.PublicKey)) - 1) / val(privateKey.PublicKey.N), val(privateKey.PublicKey.N))) % val(privateKey.PublicKey.N))
